@@ -284,7 +284,6 @@ theorem C04_check_predicatesOk (h : createPresentation pc r sel sa holder sessio
     exact mem_dedup.mpr (List.mem_map_of_mem (f := normPred) (List.mem_map_of_mem (f := predOfInfo) hq))
   · simp [normPred, predOfInfo, commonView_idem]
 
-open AnonModel.Query (Query)
 
 
 theorem servingAttr_some {used : List Selected} {ref : String} {s : Selected} {flag : Bool}
@@ -456,8 +455,6 @@ theorem C04_check_restrictions (hm : meetsDemands ctx pc r sel sa = true)
         rw [this]
         assumption
 
-open AnonModel.Query (Query)
-
 
 theorem mapM_eq_some_map {α β : Type} {f : α → Option β} {g : α → β} :
     ∀ {l : List α}, (∀ a ∈ l, f a = some (g a)) → l.mapM f = some (l.map g) := by
@@ -469,15 +466,26 @@ theorem mapM_eq_some_map {α β : Type} {f : α → Option β} {g : α → β} :
     rw [List.mapM_cons, h a List.mem_cons_self, ih (fun b hb => h b (List.mem_cons_of_mem _ hb))]
     rfl
 
+/-- the conjuncts of `meetsDemands` that the CL-level checks need, over any list of used entries
+(shared by both formats) -/
+structure MeetsCL (ctx : Ctx) (pc : PCtx) (r : Request) (used : List Selected) : Prop where
+  schemas : schemasAgree ctx pc used = true
+  credDefs : credDefsAgree ctx used = true
+  registries : registriesSupplied ctx used = true
+  nonRev : nonRevProofsOk ctx r used = true
+
+theorem Meets.cl (m : Meets ctx pc r sel sa) : MeetsCL ctx pc r (usedOf sel) :=
+  ⟨m.schemas, m.credDefs, m.registries, m.nonRev⟩
+
 /-- the verifier's schema of a used credential, with the same normalised names as the prover's -/
-theorem Meets.schema_of (m : Meets ctx pc r sel sa) {s : Selected} {i : Nat}
-    (hs : (usedOf sel)[i]? = some s) :
+theorem MeetsCL.schema_of {used : List Selected} (m : MeetsCL ctx pc r used) {s : Selected}
+    (hs : s ∈ used) :
     ∃ a sc, pc.schemas.lookup s.cred.schemaId = some a ∧ ctx.schemas.lookup s.cred.schemaId = some sc ∧
       ∀ x, x ∈ sc.attrNames.map commonView ↔ x ∈ a.map commonView := by
   have := m.schemas
   unfold schemasAgree at this
   simp only [List.all_eq_true] at this
-  have := this s (List.mem_of_getElem? hs)
+  have := this s hs
   split at this
   · rename_i a sc h1 h2
     refine ⟨a, sc, h1, h2, ?_⟩
@@ -486,13 +494,13 @@ theorem Meets.schema_of (m : Meets ctx pc r sel sa) {s : Selected} {i : Nat}
     exact fun x => ⟨this.1 x, this.2 x⟩
   · cases this
 
-theorem Meets.credDef_of (m : Meets ctx pc r sel sa) {s : Selected} {i : Nat}
-    (hs : (usedOf sel)[i]? = some s) :
+theorem MeetsCL.credDef_of {used : List Selected} (m : MeetsCL ctx pc r used) {s : Selected}
+    (hs : s ∈ used) :
     ∃ cd, ctx.credDefs.lookup s.cred.credDefId = some cd ∧ cd.key = s.cred.sym.key := by
   have := m.credDefs
   unfold credDefsAgree at this
   simp only [List.all_eq_true] at this
-  have := this s (List.mem_of_getElem? hs)
+  have := this s hs
   split at this
   · rename_i cd h1
     exact ⟨cd, h1, by simpa using this⟩
@@ -503,14 +511,14 @@ def subCtxOf (ctx : Ctx) (s : Selected) (sc : SchemaInfo) (cd : CredDefInfo) : S
   { schemaAttrs := sc.attrNames.map commonView, key := cd.key, hasRevKey := cd.revocable,
     regKey := (registryFor ctx s).map (·.1.regKey), acc := (registryFor ctx s).bind (·.2.acc) }
 
-theorem Meets.registry_of (m : Meets ctx pc r sel sa) {s : Selected} {i : Nat}
-    (hs : (usedOf sel)[i]? = some s) :
+theorem MeetsCL.registry_of {used : List Selected} (m : MeetsCL ctx pc r used) {s : Selected}
+    (hs : s ∈ used) :
     revocationRegistry ctx (identOf s) =
       some ((registryFor ctx s).map (·.1.regKey), (registryFor ctx s).bind (·.2.acc)) := by
   have := m.registries
   unfold registriesSupplied at this
   simp only [List.all_eq_true] at this
-  have := this s (List.mem_of_getElem? hs)
+  have := this s hs
   unfold revocationRegistry registryFor at *
   simp only [identOf]
   cases h1 : s.cred.revRegId with
@@ -569,8 +577,8 @@ theorem predLocals_of (ch : LegacyChar pc r sel sa holder session uid0 p) {s : S
   simp [hl]
 
 /-- the sub-proof built for an entry only mentions attributes of the verifier's schema -/
-theorem addSubProofRequestOk_of (m : Meets ctx pc r sel sa) {s : Selected} {i : Nat}
-    (hs : (usedOf sel)[i]? = some s) {sub : SymSub} {uid : Nat}
+theorem addSubProofRequestOk_of {used : List Selected} (m : MeetsCL ctx pc r used) {s : Selected}
+    (hs : s ∈ used) {sub : SymSub} {uid : Nat}
     (hadd : addSubProof pc r s holder session uid = some sub) {sc : SchemaInfo}
     (hsc : ctx.schemas.lookup s.cred.schemaId = some sc) {cd : CredDefInfo} :
     addSubProofRequestOk (subCtxOf ctx s sc cd) sub = true := by
@@ -602,8 +610,8 @@ theorem subCtxFor_of (m : Meets ctx pc r sel sa) (ch : LegacyChar pc r sel sa ho
     ∃ sc cd, ctx.schemas.lookup s.cred.schemaId = some sc ∧
       ctx.credDefs.lookup s.cred.credDefId = some cd ∧ cd.key = s.cred.sym.key ∧
       subCtxFor ctx r p i (identOf s) = some (subCtxOf ctx s sc cd) := by
-  obtain ⟨a, sc, ha, hsc, hsame⟩ := m.schema_of hs
-  obtain ⟨cd, hcd, hkey⟩ := m.credDef_of hs
+  obtain ⟨a, sc, ha, hsc, hsame⟩ := m.cl.schema_of (List.mem_of_getElem? hs)
+  obtain ⟨cd, hcd, hkey⟩ := m.cl.credDef_of (List.mem_of_getElem? hs)
   obtain ⟨sub, hsub, hadd⟩ := ch.sub_of hs
   refine ⟨sc, cd, hsc, hcd, hkey, ?_⟩
   have hint : Interval.checkLegacy cd.revocable (Interval.foldLocals (verifierAttrLocals r s i))
@@ -617,11 +625,11 @@ theorem subCtxFor_of (m : Meets ctx pc r sel sa) (ch : LegacyChar pc r sel sa ho
   unfold subCtxFor
   rw [attrLocals_of ch hs, predLocals_of ch hs]
   simp only [identOf, hcd, hint, hsub, hsc, Bool.not_true, Bool.false_eq_true, if_false]
-  have hreg := m.registry_of hs
+  have hreg := m.cl.registry_of (List.mem_of_getElem? hs)
   simp only [identOf] at hreg
   rw [hreg]
   simp only []
-  have := addSubProofRequestOk_of m hs hadd hsc (cd := cd)
+  have := addSubProofRequestOk_of m.cl (List.mem_of_getElem? hs) hadd hsc (cd := cd)
   unfold subCtxOf at this ⊢
   rw [if_pos this]
 
@@ -679,5 +687,185 @@ theorem C04_check_subCtxs (hm : meetsDemands ctx pc r sel sa = true)
     obtain ⟨sc, cd, h1, h2, h3, h4⟩ := subCtxFor_of m ch hs
     rw [hbody j (List.mem_range.mpr hlt) s hs, h4] at hf
     exact ⟨s, sc, cd, hs, h1, h2, h3, (Option.some.inj hf).symm⟩
+
+
+/-- all link-secret responses equal the first one -/
+def msAgree : List SymSub → Bool
+  | [] => true
+  | s :: rest => rest.all (fun t => t.ms == s.ms)
+
+/-- `verify` with the link-secret check named -/
+theorem verify_eq (ctxs : List SubCtx) (subs : List SymSub) (agg : SymAgg) (nonce : String) :
+    IdealCL.verify ctxs subs agg nonce true =
+      if ctxs.length ≠ subs.length then none
+      else if !(ctxs.zip subs).all (fun cs => paramsConsistent cs.2) then none
+      else if !msAgree subs then none
+      else some (agg.intact && decide (agg.nonce = nonce) &&
+        decide (agg.bound = (ctxs.zip subs).map (fun cs => (cs.2.uid, nrpChecked cs.1 cs.2))) &&
+        (ctxs.zip subs).all (fun cs => primaryOk cs.1 cs.2 && (!nrpChecked cs.1 cs.2 || nrpOk cs.1 cs.2))) := by
+  unfold IdealCL.verify
+  cases subs <;> simp only [msAgree, Bool.true_and] <;> rfl
+
+theorem msAgree_true {subs : List SymSub}
+    (hms : ∀ m, ∀ s ∈ subs, ∀ t ∈ subs, s.ms = m → t.ms = m) : msAgree subs = true := by
+  cases subs with
+  | nil => rfl
+  | cons s rest =>
+    simp only [msAgree, List.all_eq_true, beq_iff_eq]
+    intro t ht
+    exact hms s.ms s List.mem_cons_self t (List.mem_cons_of_mem _ ht) rfl
+
+/-- sufficient conditions for `ProofVerifier::verify` to return `Ok(true)` -/
+theorem verify_true {ctxs : List SubCtx} {subs : List SymSub} {agg : SymAgg} {nonce : String}
+    (hl : ctxs.length = subs.length)
+    (hpc : ∀ s ∈ subs, paramsConsistent s = true)
+    (hms : ∀ m, ∀ s ∈ subs, ∀ t ∈ subs, s.ms = m → t.ms = m)
+    (hint : agg.intact = true) (hn : agg.nonce = nonce)
+    (hb : agg.bound = subs.map (fun s => (s.uid, s.nrp.isSome)))
+    (hp : ∀ cs ∈ ctxs.zip subs, primaryOk cs.1 cs.2 = true ∧ nrpChecked cs.1 cs.2 = cs.2.nrp.isSome ∧
+      nrpOk cs.1 cs.2 = true) :
+    IdealCL.verify ctxs subs agg nonce true = some true := by
+  rw [verify_eq, if_neg (by simp [hl])]
+  have h1 : ((ctxs.zip subs).all (fun cs => paramsConsistent cs.2)) = true := by
+    simp only [List.all_eq_true]
+    intro cs hcs
+    exact hpc cs.2 (List.of_mem_zip hcs).2
+  rw [if_neg (by rw [h1]; simp), msAgree_true hms, if_neg (by simp)]
+  have h3 : agg.bound = (ctxs.zip subs).map (fun cs => (cs.2.uid, nrpChecked cs.1 cs.2)) := by
+    rw [hb]
+    have : (ctxs.zip subs).map (fun cs => (cs.2.uid, nrpChecked cs.1 cs.2)) =
+        (ctxs.zip subs).map (fun cs => (fun s : SymSub => (s.uid, s.nrp.isSome)) cs.2) := by
+      apply List.map_congr_left
+      intro cs hcs
+      rw [(hp cs hcs).2.1]
+    rw [this, show (fun cs : SubCtx × SymSub => (fun s : SymSub => (s.uid, s.nrp.isSome)) cs.2) =
+      (fun s : SymSub => (s.uid, s.nrp.isSome)) ∘ Prod.snd from rfl, ← List.map_map,
+      List.map_snd_zip (by omega)]
+  have h4 : ((ctxs.zip subs).all (fun cs => primaryOk cs.1 cs.2 && (!nrpChecked cs.1 cs.2 || nrpOk cs.1 cs.2))) = true := by
+    simp only [List.all_eq_true]
+    intro cs hcs
+    obtain ⟨a, _, c⟩ := hp cs hcs
+    simp [a, c]
+  simp only [hint, hn, h4, ← h3, decide_true, Bool.and_self]
+
+
+/-- what `nonRevProofsOk` says about one used entry -/
+theorem MeetsCL.nonRev_of {used : List Selected} (m : MeetsCL ctx pc r used) {s : Selected}
+    (hs : s ∈ used) {n : SymNrp} (hn : nrpOf r s = some n) :
+    ∃ cd d l, ctx.credDefs.lookup s.cred.credDefId = some cd ∧ registryFor ctx s = some (d, l) ∧
+      cd.revocable = true ∧ n.witOk = true ∧ d.regKey = n.regKey ∧ l.acc = some n.acc ∧
+      s.cred.sym.rev = some (n.regKey, n.idx) := by
+  have := m.nonRev
+  unfold nonRevProofsOk at this
+  simp only [List.all_eq_true] at this
+  have := this s hs
+  rw [hn] at this
+  simp only [] at this
+  split at this
+  · rename_i cd d l h1 h2
+    simp only [Bool.and_eq_true, beq_iff_eq] at this
+    obtain ⟨⟨⟨⟨a, b⟩, c⟩, d'⟩, e⟩ := this
+    exact ⟨cd, d, l, h1, h2, a, b, c, d', e⟩
+  · cases this
+
+/-- the CL checks of one (context, sub-proof) pair -/
+theorem pair_ok {used : List Selected} (m : MeetsCL ctx pc r used) {s : Selected}
+    (hs : s ∈ used) {sc : SchemaInfo} {cd : CredDefInfo}
+    (hsc : ctx.schemas.lookup s.cred.schemaId = some sc)
+    (hcd : ctx.credDefs.lookup s.cred.credDefId = some cd) (hkey : cd.key = s.cred.sym.key)
+    {sub : SymSub} {uid : Nat} (hadd : addSubProof pc r s holder session uid = some sub) :
+    primaryOk (subCtxOf ctx s sc cd) sub = true ∧
+    nrpChecked (subCtxOf ctx s sc cd) sub = sub.nrp.isSome ∧
+    nrpOk (subCtxOf ctx s sc cd) sub = true := by
+  obtain ⟨a, sc', ha, hsc', hsame⟩ := m.schema_of hs
+  rw [hsc] at hsc'; cases hsc'
+  obtain ⟨a', ainfos, pinfos, ha', _, _, _, hb⟩ := addSubProof_some hadd
+  rw [ha] at ha'; cases ha'
+  obtain ⟨h1, h2, _, _, _, h6, hrev, hpreds, hcred, hnrp, _, hintact, _⟩ := buildSub_some hb
+  refine ⟨?_, ?_, ?_⟩
+  · unfold primaryOk subCtxOf
+    simp only [Bool.and_eq_true, decide_eq_true_eq, List.all_eq_true, List.contains_iff_mem, hcred,
+      beq_iff_eq]
+    refine ⟨⟨⟨⟨hintact, hkey.symm⟩, ?_, ?_⟩, ?_⟩, ?_⟩
+    · intro x hx; exact h1 x ((hsame x).mp hx)
+    · intro x hx; exact (hsame x).mpr (h2 x hx)
+    · intro kv hkv
+      obtain ⟨_, _, _, hl⟩ := addSubProof_revealed hadd (n := kv.1) (v := kv.2) hkv
+      exact hl
+    · intro pr hpr
+      rw [hpreds] at hpr
+      obtain ⟨q, hq, e⟩ := List.mem_map.mp (mem_dedup.mp hpr)
+      rw [← e]; exact h6 q hq
+  · unfold nrpChecked subCtxOf
+    simp only [hnrp]
+    cases hn : nrpOf r s with
+    | none => rfl
+    | some n =>
+      obtain ⟨cd', d, l, hcd', hreg, hrevoc, _, _, hacc, _⟩ := m.nonRev_of hs hn
+      rw [hcd] at hcd'; cases hcd'
+      simp [hreg, hrevoc, hacc]
+  · unfold nrpOk subCtxOf
+    simp only [hnrp, hcred]
+    cases hn : nrpOf r s with
+    | none => rfl
+    | some n =>
+      obtain ⟨cd', d, l, hcd', hreg, _, hwit, hrk, hacc, hrev'⟩ := m.nonRev_of hs hn
+      simp [hreg, hwit, hrk, hacc, hrev']
+
+/-- check 10: the CL verification of the sub-proofs against the verifier's contexts succeeds -/
+theorem C04_check_cl (hm : meetsDemands ctx pc r sel sa = true)
+    (h : createPresentation pc r sel sa holder session uid0 = some p) {cs : List SubCtx}
+    (hcs : subCtxs ctx r p = some cs) : IdealCL.verify cs p.subs p.agg r.nonce true = some true := by
+  have ch := createPresentation_char h
+  have m := meets_of hm
+  obtain ⟨cs', hcs', hlen, hchar⟩ := C04_check_subCtxs hm h
+  rw [hcs] at hcs'; cases hcs'
+  apply verify_true
+  · rw [hlen, ch.subs_length]
+  · intro sub hsub
+    obtain ⟨i, hi⟩ := List.mem_iff_getElem?.mp hsub
+    obtain ⟨s, _, hadd⟩ := ch.sub_inv hi
+    obtain ⟨hnr, hnp⟩ := addSubProof_normal hadd
+    unfold paramsConsistent
+    simp only [Bool.and_eq_true, List.all_eq_true, beq_iff_eq]
+    exact ⟨hnr, hnp⟩
+  · intro m' s1 hs1 s2 hs2 e
+    have hms : ∀ sub ∈ p.subs, sub.ms = (holder, session) := by
+      intro sub hsub
+      obtain ⟨i, hi⟩ := List.mem_iff_getElem?.mp hsub
+      obtain ⟨s, _, hadd⟩ := ch.sub_inv hi
+      obtain ⟨_, _, _, _, _, _, _, hb⟩ := addSubProof_some hadd
+      exact (buildSub_some hb).2.2.2.2.2.2.2.2.2.2.1
+    rw [← e, hms s1 hs1, hms s2 hs2]
+  · rw [ch.agg]
+  · rw [ch.agg]
+  · rw [ch.agg]
+  · intro pr hpr
+    obtain ⟨i, hi⟩ := List.mem_iff_getElem?.mp hpr
+    obtain ⟨hc, hsub⟩ := List.getElem?_zip_eq_some.mp hi
+    obtain ⟨s, sc, cd, hs, hsc, hcd, hkey, hceq⟩ := hchar i pr.1 hc
+    obtain ⟨s', hs', hadd⟩ := ch.sub_inv hsub
+    rw [hs] at hs'; cases hs'
+    rw [hceq]
+    exact pair_ok m.cl (List.mem_of_getElem? hs) hsc hcd hkey hadd
+
+/-- **C04 (legacy format): honest flows verify.** If the verifier's context, the prover's context, the
+request, the selection and the self-attested values meet `meetsDemands` — the verifier knows the same
+schemas and the credential definitions that signed the credentials, the credentials carry the values
+that were signed, every requested referent is served (or self-attested and unrestricted), unrevealed
+referents are served by credentials that have the attribute, restrictions are true of the serving
+credentials, timestamps lie in the demanded non-revocation intervals and the revocation states passed
+along are good for the registries and status lists the verifier supplies — then any presentation
+`create_presentation` builds is accepted by `verify_presentation`: the verdict is `Ok(true)`. -/
+theorem C04_legacy (hm : meetsDemands ctx pc r sel sa = true)
+    (h : createPresentation pc r sel sa holder session uid0 = some p) :
+    verifyLegacy ctx r p = .ok true := by
+  obtain ⟨cs, hcs, _⟩ := C04_check_subCtxs hm h
+  have hl : listsOk ctx = true := (meets_of hm).lists
+  unfold verifyLegacy
+  simp only [C04_check_indicesOk h, C04_check_uniqueReferents h, C04_check_compareAttrs hm h,
+    C04_check_revealedValuesOk hm h, C04_check_unrevealedOk hm h, C04_check_predicatesOk h,
+    C04_check_restrictions hm h, hl, hcs, C04_check_cl hm h hcs, Bool.not_true, Bool.false_eq_true,
+    if_false]
 
 end AnonModel.Prover
